@@ -57,6 +57,11 @@ class Connection:
         self._initialize_references()
       except:
         # the line is refused: it does not belong to the Gfa
+        # and the lines it was already linked to forget it
+        self._remove_field_backreferences()
+        self._remove_field_references()
+        self._remove_nonfield_backreferences()
+        self._remove_nonfield_references()
         self._gfa = None
         raise
       self._gfa._register_line(self)
